@@ -25,8 +25,10 @@ def run_one(patch, prop, expect):
         shutil.rmtree(out, ignore_errors=True)
 
 def main():
-    only = sys.argv[1:]
-    dirs = sorted(glob.glob(os.path.join(V, "selftest", "mutants", "*"))) + sorted(glob.glob(os.path.join(V, "seeded", "*")))
+    only = [a for a in sys.argv[1:] if not a.startswith("--")]
+    dirs = sorted(glob.glob(os.path.join(V, "selftest", "mutants", "*")))
+    if "--mutants-only" not in sys.argv:
+        dirs += sorted(glob.glob(os.path.join(V, "seeded", "*")))
     bad = 0
     for d in dirs:
         if not os.path.isdir(d) or not os.path.exists(os.path.join(d, "meta.json")):
